@@ -6,6 +6,7 @@ import (
 	"strings"
 
 	"github.com/advancedclimatesystems/gonnx"
+	"github.com/advancedclimatesystems/gonnx/onnx"
 	"gorgonia.org/tensor"
 
 	"verif/harness/gen"
@@ -46,6 +47,10 @@ type sigInput struct {
 }
 
 func c13Run(c *Ctx) {
+	if c.Idx%16 == 11 {
+		c13Reported(c)
+		return
+	}
 	r := c.R
 	nIn := r.Range(1, 3)
 	var ins []sigInput
@@ -367,6 +372,110 @@ func c13Run(c *Ctx) {
 	if c.Idx%4000 == 37 {
 		c.Sample(map[string]any{"signature": sigStr, "supplied": feedString(feed), "deviation": deviation, "expected_accept": accept, "observed_error": fmt.Sprint(o.Err)})
 	}
+}
+
+// c13Reported: "the shapes reported by the model's introspection methods are the ones
+// Run enforces", on declarations whose reading is the library's to choose (a negative
+// dim_value, a dim_value next to nothing else, huge values): whatever InputShapes reports
+// for an axis - dynamic, or fixed with some size - is what Run must enforce, and
+// InputDimSize must report the same sizes.
+func c13Reported(c *Ctx) {
+	r := c.R
+	rank := r.Range(1, 4)
+	dims := make([]mon.Dim, rank)
+	shape := make([]int, rank)
+	odd := false
+	for d := range dims {
+		shape[d] = r.Range(1, 5)
+		switch r.Intn(6) {
+		case 0:
+			dims[d] = mon.Dim{Value: int64(r.PickInt(-1, -1, -2, -7, -shape[d]))}
+			odd = true
+		case 1:
+			dims[d] = mon.Dim{Param: r.PickStr("N", "batch", "-1", "0")}
+		case 2:
+			dims[d] = mon.Dim{Unset: true}
+		case 3:
+			dims[d] = mon.Dim{Value: int64(shape[d]) + int64(r.PickInt(1<<32, 1<<31, 256))}
+			odd = true
+		default:
+			dims[d] = mon.Dim{Value: int64(shape[d])}
+		}
+	}
+	if r.Chance(0.3) { // the supplied tensor deviates at one axis
+		shape[r.Intn(rank)] += r.Range(1, 2)
+	}
+	g := &mon.Graph{Inputs: []mon.GInput{{Name: "x", DT: ref.F32, Dims: dims}},
+		Nodes:   []mon.GNode{{Op: "Relu", Inputs: []string{"x"}, Outputs: []string{"y"}}},
+		Outputs: []mon.GInput{{Name: "y", NoType: true}}}
+	x := r.Tensor(ref.F32, shape, gen.FillSmall, 5)
+	sig := sigString([]sigInput{{name: "x", dims: dims}})
+	c.SetCase("reported-is-enforced: signature %s; supplied %v", sig, shape)
+	if odd {
+		c.Nontrivial("reported|" + sig + fmt.Sprint(shape))
+	}
+	c.Count("reported-is-enforced-cases", 1)
+	var m *gonnx.Model
+	var reported onnxShape
+	var res gonnx.Tensors
+	o := mon.Capture(nil, func() ([]tensor.Tensor, error) {
+		var err error
+		if m, err = gonnx.NewModelFromBytes(g.Bytes()); err != nil {
+			return nil, fmt.Errorf("load: %w", err)
+		}
+		reported = m.InputShapes()["x"]
+		res, err = m.Run(gonnx.Tensors{"x": mon.ToTensor(x)})
+		return nil, err
+	})
+	c.Eval(1)
+	if o.Kind == mon.Panic {
+		c.Violation("signature:panic", "%s", o.Describe())
+		return
+	}
+	if m == nil {
+		return // a declaration the library refuses to load is not this property's subject
+	}
+	if len(reported) != rank {
+		c.Violation("introspection:InputShapes-rank", "x: %d dims reported, %d declared", len(reported), rank)
+		return
+	}
+	accept := true
+	for d := range reported {
+		if !reported[d].IsDynamic && reported[d].Size != int64(shape[d]) {
+			accept = false
+		}
+		if n, err := m.InputDimSize("x", d); err != nil || (!reported[d].IsDynamic && int64(n) != reported[d].Size) {
+			c.Violation("introspection:InputDimSize", "x axis %d: InputDimSize %d, %v; InputShapes reports size %d dynamic=%v", d, n, err, reported[d].Size, reported[d].IsDynamic)
+		}
+		if dims[d].Value > 0 && (reported[d].IsDynamic || reported[d].Size != dims[d].Value) {
+			c.Violation("introspection:Size", "x axis %d: reported size %d dynamic=%v, declared %d", d, reported[d].Size, reported[d].IsDynamic, dims[d].Value)
+		}
+		if dims[d].Value == 0 && !reported[d].IsDynamic {
+			c.Violation("introspection:IsDynamic", "x axis %d: reported as fixed (size %d), declared without a value", d, reported[d].Size)
+		}
+	}
+	switch {
+	case accept && o.Kind == mon.Error:
+		c.Violation("signature:rejected-conforming-set", "Run rejected shape %v although InputShapes reports %v: %v", shape, describeDims(reported), o.Err)
+	case !accept && o.Kind != mon.Error:
+		c.Violation("signature:accepted-nonconforming-set", "Run accepted shape %v although InputShapes reports %v", shape, describeDims(reported))
+	case !accept && res != nil:
+		c.Violation("signature:outputs-with-error", "Run returned outputs together with an error")
+	}
+}
+
+type onnxShape = onnx.Shape
+
+func describeDims(s onnxShape) string {
+	var parts []string
+	for _, d := range s {
+		if d.IsDynamic {
+			parts = append(parts, "dynamic")
+		} else {
+			parts = append(parts, fmt.Sprint(d.Size))
+		}
+	}
+	return "[" + strings.Join(parts, " ") + "]"
 }
 
 func c13Introspect(c *Ctx, m *gonnx.Model, ins []sigInput) {
